@@ -319,94 +319,109 @@ def show(v, depth=0):
 
 
 def free_vars_of_fn(params, body):
-    """Names read or written inside a function body that are not its parameters (approximation of
-    the compiler's net dependencies: enough to decide which visible cells are captured)."""
+    """Names a function body reads (or `modify`-writes) before / without declaring them itself: the model of the
+    compiler's net dependencies, which decides which visible cells the function value captures.  A plain
+    assignment declares a local (after its right-hand side has been read); declarations are block-scoped."""
     names = set()
 
-    def ex(e):
+    def ex(e, decl):
         t = e[0]
         if t == "var":
-            names.add(e[1])
+            if e[1] not in decl:
+                names.add(e[1])
         elif t == "unwrap":
-            names.add(e[1])
-            ex(e[2])
+            if e[1] not in decl:
+                names.add(e[1])
+            ex(e[2], decl)
         elif t == "fn":
-            names.update(free_vars_of_fn(e[1], e[3]))
-        elif t in ("call",):
-            ex(e[1])
+            inner = free_vars_of_fn(e[1], e[3])
+            names.update(n for n in inner if n not in decl)
+        elif t == "call":
+            ex(e[1], decl)
             for a in e[2]:
-                ex(a)
-        elif t in ("selfcall",):
+                ex(a, decl)
+        elif t == "selfcall":
             for a in e[1]:
-                ex(a)
+                ex(a, decl)
         elif t == "new":
-            names.add(e[1])
+            if e[1] not in decl:
+                names.add(e[1])
             for a in e[2]:
-                ex(a)
+                ex(a, decl)
         elif t == "list":
             for a in e[1]:
-                ex(a)
+                ex(a, decl)
         elif t == "maplit":
             for k_, v_ in e[3]:
-                ex(k_)
-                ex(v_)
+                ex(k_, decl)
+                ex(v_, decl)
         elif t == "method":
-            ex(e[1])
+            ex(e[1], decl)
             for a in e[3]:
-                ex(a)
+                ex(a, decl)
         elif t == "field":
-            ex(e[1])
+            ex(e[1], decl)
         else:
             for x in e[1:]:
                 if isinstance(x, tuple) and x and isinstance(x[0], str):
-                    ex(x)
+                    ex(x, decl)
 
-    def st(s):
+    def block(stmts, decl):
+        decl = set(decl)
+        for s in stmts:
+            st(s, decl)
+
+    def st(s, decl):
         t = s[0]
         if t == "assign":
-            names.add(s[1])
-            ex(s[2])
+            ex(s[2], decl)
+            if "modify" in s[4]:
+                names.add(s[1])
+            else:
+                decl.add(s[1])
         elif t == "unpack":
-            names.update(s[1])
-            ex(s[2])
+            ex(s[2], decl)
+            decl.update(s[1])
         elif t == "opassign":
-            ex(s[1])
-            ex(s[3])
+            ex(s[1], decl)
+            ex(s[3], decl)
         elif t == "setindex":
-            ex(s[1]); ex(s[2]); ex(s[3])
+            ex(s[1], decl); ex(s[2], decl); ex(s[3], decl)
         elif t == "setfield":
-            ex(s[1]); ex(s[3])
+            ex(s[1], decl); ex(s[3], decl)
         elif t in ("print", "assert", "expr"):
-            ex(s[1])
+            ex(s[1], decl)
         elif t == "return":
             if s[1] is not None:
-                ex(s[1])
+                ex(s[1], decl)
         elif t == "if":
-            ex(s[1])
-            for x in s[2]:
-                st(x)
-            el = s[3]
-            if el is not None:
+            while True:
+                ex(s[1], decl)
+                block(s[2], decl)
+                el = s[3]
+                if el is None:
+                    break
                 if isinstance(el, tuple) and el and el[0] == "if":
-                    st(el)
-                else:
-                    for x in el:
-                        st(x)
+                    s = el
+                    continue
+                block(el, decl)
+                break
         elif t == "while":
-            ex(s[1])
-            for x in s[2]:
-                st(x)
+            ex(s[1], decl)
+            block(s[2], decl)
         elif t == "from":
-            ex(s[1]); ex(s[2])
-            if s[4] is not None:
-                ex(s[4])
+            ex(s[1], decl); ex(s[2], decl)
+            inner = set(decl)
             if s[5]:
-                names.add(s[5])
-            for x in s[6]:
-                st(x)
-    for s in body:
-        st(s)
-    return names - {p for p, _ in params}
+                if s[5] not in decl:
+                    inner.add(s[5])
+            if s[4] is not None:
+                ex(s[4], inner)
+            block(s[6], inner)
+        elif t == "class":
+            decl.add(s[1])
+    block(body, {p for p, _ in params})
+    return names
 
 
 # ---------------------------------------------------------------------------------------------
